@@ -709,9 +709,12 @@ class InspectFunction(object):
 
         def fetch(dep: DDSPath) -> PyHash:
             key = gctx.resolved_references.get(dep)
-            assert (
-                key is not None
-            ), f"Missing dep {dep} for {fun_path}: {call_stack} {gctx.resolved_references}"
+            if key is None:
+                raise DDSException(
+                    f"Function {fun_path} loads the path {dep}, but this path is produced later in the same evaluation"
+                    f" (or is not produced at all). A path must be kept before it is loaded."
+                    f" Call stack: {call_stack}"
+                )
             return key
 
         indirect_deps_sigs = dict([(dep, fetch(dep)) for dep in indirect_dep])
